@@ -1,4 +1,5 @@
 import Model.SoftReset
+import Model.SoftResetWorld
 import Driver.Util
 /- line-protocol driver for the policy / soft-reset world (C15) -/
 namespace DriverC15
@@ -149,7 +150,80 @@ def step (s : S) (ts : List String) : S × List String :=
   | [] => (s, [])
   | _ => (s, ["bad-op"])
 
+/-! ### the compositional whole-speaker model (Model/SoftResetWorld.lean) in lockstep -/
+
+open SoftResetWorld in
+/-- the same line applied to the product model -/
+def stepW (sw : SW) (ts : List String) : SW :=
+  match ts with
+  | ["world", as, rid] => { k := { g := ⟨nat! as, nat! rid⟩ } }
+  | ["opts", a, b, c] => { sw with k := { sw.k with opts := ⟨b! a, b! b, b! c⟩ } }
+  | ["peer", idx, kind, as, rid, addr, sendMax, apRx, allowOwn] =>
+    let cfg : PeerCfg := { idx := nat! idx, kind := kindOf kind, as := nat! as, rid := nat! rid, addr := nat! addr,
+                           sendMax := nat! sendMax, addPathRx := b! apRx, allowOwnAs := nat! allowOwn }
+    { sw with k := { sw.k with cfgs := sw.k.cfgs ++ [cfg] } }
+  | ["up", idx] => SoftResetWorld.step sw (.up (nat! idx))
+  | ["down", idx] => SoftResetWorld.step sw (.down (nat! idx))
+  | "ann" :: idx :: rest =>
+    match parseRoute rest with
+    | some r => SoftResetWorld.step sw (.ann (nat! idx) r)
+    | none => sw
+  | ["wd", idx, pfx, pid] => SoftResetWorld.step sw (.wd (nat! idx) (nat! pfx) (nat! pid))
+  | "pol" :: dir :: dflt :: n :: rest =>
+    let p : Pol := { stmts := parseStmts (nat! n) rest, dfltAccept := b! dflt }
+    if p.stmts.length != nat! n then sw
+    else if dir == "imp" then SoftResetWorld.step sw (.setImp p)
+    else if dir == "exp" then SoftResetWorld.step sw (.setExp p)
+    else sw
+  | ["softin", idx] => SoftResetWorld.step sw (.softIn (nat! idx))
+  | ["softout", idx] => SoftResetWorld.step sw (.softOut (nat! idx))
+  | ["softboth", idx] => SoftResetWorld.step sw (.softBoth (nat! idx))
+  | ["softinall"] => SoftResetWorld.step sw .softInAll
+  | ["softoutall"] => SoftResetWorld.step sw .softOutAll
+  | ["softbothall"] => SoftResetWorld.step sw .softBothAll
+  | ["refresh", idx] => SoftResetWorld.step sw (.refresh (nat! idx))
+  | _ => sw
+
+/-- the destinations a history has mentioned so far -/
+def seenPfx (seen : List Nat) (ts : List String) : List Nat :=
+  let add (p : Nat) := if seen.contains p then seen else seen ++ [p]
+  match ts with
+  | "ann" :: _ :: pfx :: _ => add (nat! pfx)
+  | ["wd", _, pfx, _] => add (nat! pfx)
+  | ["world", _, _] => []
+  | _ => seen
+
+open SoftResetWorld in
+/-- the product model's answer to an ask, rendered exactly as the association-list model's -/
+def askW (sw : SW) (seen : List Nat) (ts : List String) : Option String :=
+  match ts with
+  | ["view", idx] =>
+    let v : ViewP := seen.filterMap (fun d => ((sw.d d).held (nat! idx)).map (fun h => (d, h)))
+    some ("view" ++ showView v)
+  | ["sent", idx] =>
+    some ("sent" ++ showSent (seen.filter (fun d => ((sw.d d).held (nat! idx)).isSome)))
+  | ["rib", pfx] =>
+    some ("rib" ++ String.join (((sw.d (nat! pfx)).rib).map (fun c =>
+      s!" {c.marker}/{showOpt c.med}/{showOpt c.localPref}/{showComms c.comms}")))
+  | _ => none
+
+structure Both where
+  s    : S
+  sw   : SoftResetWorld.SW
+  seen : List Nat := []
+
+/-- both models advance on every line; an ask is answered only when they agree -/
+def stepBoth (b : Both) (ts : List String) : Both × List String :=
+  let (s', outs) := step b.s ts
+  let sw' := stepW b.sw ts
+  let seen' := seenPfx b.seen ts
+  let outs' :=
+    match askW sw' seen' ts, outs with
+    | some w, [a] => if w == a then [a] else ["MODELS-DISAGREE list-model: " ++ a ++ " | product-model: " ++ w]
+    | _, _ => outs
+  ({ s := s', sw := sw', seen := seen' }, outs')
+
 def main : IO Unit := do
-  loop (← IO.getStdin) (← IO.getStdout) ({ g := ⟨0, 0⟩ } : S) step
+  loop (← IO.getStdin) (← IO.getStdout) ({ s := { g := ⟨0, 0⟩ }, sw := { k := { g := ⟨0, 0⟩ } } } : Both) stepBoth
 
 end DriverC15
